@@ -144,7 +144,7 @@ class Optimizer:
         with self._tee:
             try:
                 verbose = 2 if self._verbose else 0
-                self._optimization_result = least_squares(
+                optimization_result = least_squares(
                     self.objective_function,
                     initial_parameter,
                     bounds=(lower_bounds, upper_bounds),
@@ -155,6 +155,12 @@ class Optimizer:
                     gtol=self._scheme.gtol,
                     xtol=self._scheme.xtol,
                 )
+                if not (
+                    np.all(np.isfinite(optimization_result.fun))
+                    and np.all(np.isfinite(optimization_result.jac))
+                ):
+                    raise ValueError("Optimization finished with non-finite residuals or jacobian.")
+                self._optimization_result = optimization_result
                 self._termination_reason = self._optimization_result.message
             except Exception as e:
                 if self._raise:
